@@ -2,7 +2,7 @@
     command family, book side and log side. *)
 From Coq Require Import Lia.
 From HP Require Import Base.Bytes Base.Utf8 Base.Num Model.Scanner Model.Parser Model.Elements Model.Resolver
-  Model.Dates Model.Tree Model.Writer Model.Reporters Model.Cli.
+  Model.Dates Model.Tree Model.Writer Model.Regex Model.Reporters Model.Cli.
 From HP Require Import Proofs.MalformedBase Proofs.MalformedLint Proofs.MalformedBook Proofs.MalformedLog.
 Open Scope N_scope.
 
@@ -155,8 +155,8 @@ Section Run.
   Theorem run_log_error_db_log : forall (w : world) (i : invocation) (op : options) odb d data pre e post,
     load w i = inr op ->
     In (i_cmd i) [CReg; CBal; CTotals; CUnresolved] ->
-    (* reg: the -f pattern is plain text, and not the single-element reporter (the one with a partial operation) *)
-    (i_cmd i = CReg -> plain_pattern (rc_single_food (op_rc op)) = true
+    (* reg: the -f pattern compiles, and not the single-element reporter (the one with a partial operation) *)
+    (i_cmd i = CReg -> pattern_ok (rc_single_food (op_rc op)) = true
                        /\ (rc_single_element (op_rc op) = [] \/ rc_group_food (op_rc op) = true)) ->
     open_file w (op_db op) = Some odb ->
     resolved_db NM w op odb = inr d ->
